@@ -136,13 +136,8 @@ static void gen_case(case_t *c, uint64_t seed) {
         else { s.psi_1b = (idx_t)rnd(&w, (uint64_t)(minlen + 1)); s.psi_1e = (idx_t)rnd(&w, (uint64_t)(minlen + 1));
                s.psi_2b = (idx_t)rnd(&w, (uint64_t)(minlen + 1)); s.psi_2e = (idx_t)rnd(&w, (uint64_t)(minlen + 1)); }
     }
-    if (s.window != 0) {
-        /* The kernels initialise psi_2b+1 cells of a rolling buffer that is only ldiff+2*window+1 wide: with a band
-           narrower than psi they write outside their own allocation (serial and parallel alike).  That is an input-
-           quantified memory-safety matter (C08, not decided here); the workload stays inside psi <= window. */
-        if (s.psi_1b > s.window) s.psi_1b = s.window; if (s.psi_1e > s.window) s.psi_1e = s.window;
-        if (s.psi_2b > s.window) s.psi_2b = s.window; if (s.psi_2e > s.window) s.psi_2e = s.window;
-    }
+    /* psi is drawn up to the shortest series length whatever the window: a band narrower than psi is admissible input
+       (it used to make the kernels read before / write past their rolling buffer: repaired in the repository). */
     if (rnd(&w, 4) == 0) s.use_pruning = true;
     if (rnd(&w, 16) == 0) s.only_ub = true;
     if (rnd(&w, 3) == 0) s.inner_dist = 1;
